@@ -18,6 +18,21 @@ Theorem framing_roundtrip :
       Forall (fun f => length (f_payload f) <= max) (h2_frames fuel max pads body)).
 Proof. exact framing_roundtrip_proof. Qed.
 
+(** 1a. byte level: a chunked body written by ANY encoder that follows the grammar
+    (hex size line, CR LF, data, CR LF, ..., "0" CR LF CR LF; any chunking, any case or
+    leading zeros of the digits) is decoded by [dechunk] — the decoder the correspondence
+    run applies to the real bytes — to the concatenation of the chunk data, complete, not
+    malformed. *)
+Theorem chunked_bytes_roundtrip :
+  forall chunks fuel,
+    Forall (fun c : list N * list byte =>
+              Forall (fun d => (d < 16)%N) (fst c) /\ fst c <> [] /\ snd c <> [] /\
+              hex_value 0 (fst c) = N.of_nat (length (snd c))) chunks ->
+    length chunks < fuel ->
+    dechunk fuel (flat_map (fun c => chunk_bytes (fst c) (snd c)) chunks ++ last_chunk_bytes) =
+    (flat_map snd chunks, true, false).
+Proof. exact dechunk_roundtrip. Qed.
+
 Theorem framing_injective :
   forall c1 c2 b1 b2, chunked_encode c1 b1 = chunked_encode c2 b2 -> b1 = b2.
 Proof. exact framing_injective_proof. Qed.
@@ -129,6 +144,9 @@ Example framing_nonvacuous :
   /\ h2_frames 10 2 [1] [7; 8; 9; 10; 11]%N
      = [mkF [7; 8]%N 1 false; mkF [9; 10]%N 0 false; mkF [11]%N 0 true]
   /\ chunked_decode [CSize 3; CData [1; 2]%N; CSize 0; CEnd] = None
+  /\ dechunk 9 [51; 13; 10; 120; 121; 122; 13; 10; 48; 13; 10; 13; 10]%N = ([120; 121; 122]%N, true, false)
+  /\ dechunk 9 [51; 13; 10; 120; 121]%N = ([120; 121]%N, false, false)
+  /\ dechunk 9 [51; 59; 97; 13; 10; 120]%N = ([], false, true)
   /\ r_sent (relay_run 2 (relay_init [1; 2; 3]%N) [Ingest 5; Convert 1; Flush 9; Flush 1]) = [1]%N
   /\ h2_prepare 10 5%Z 3 [BChunk [1; 2; 3; 4; 5; 6; 7]%N; BEnd]
      = ([mkF [1; 2; 3]%N 0 false; mkF [4; 5]%N 0 false], [BChunk [6; 7]%N; BEnd], 0%Z)
